@@ -12,6 +12,9 @@ import (
 type SchemaInfo struct {
 	regex *regex.RSchema
 	node  *schema.ASTNode
+
+	// orItem the node stands for an item of an "or" rule (see dereference.orItem).
+	orItem bool
 }
 
 var _ SchemaInformer = SchemaInfo{}
@@ -61,6 +64,10 @@ func (e SchemaInfo) Type() SchemaInfoType {
 func (e SchemaInfo) SchemaObject() SchemaObject {
 	if e.regex != nil {
 		return rsoac.New(e.regex)
+	}
+
+	if e.orItem {
+		return jsoac.NewFromOrItemASTNode(*e.node)
 	}
 
 	return jsoac.NewFromASTNode(*e.node)
